@@ -32,7 +32,8 @@ except ImportError:
 
 
 
-mymaxuint = {8:0xFF,
+mymaxuint = {1:0x1,
+             8:0xFF,
              16:0xFFFF,
              32:0xFFFFFFFF,
              64:0xFFFFFFFFFFFFFFFF
